@@ -50,7 +50,7 @@ claimed = {
              ref='3 C05'),
  'C06': dict(tech='contract-based deductive verification: length-field postconditions of the package writers over the ghost output stream, login record layout contract (VCs from go/ssa, z3/cvc5); bounded execution (labelled bounded) for read-back equality',
              text='Proved for all field values that fit the width of the length field: the length written after the token equals the number of bytes that follow it for the cursor packages, EED, ERROR, OPTIONCMD, LANGUAGE and MSG; DONE has its fixed size; the login record has its fixed layout and rejects oversized fields instead of truncating or shifting them. Read-back equality (ReadFrom(WriteTo(p)) == p, bytes consumed exactly) is decided on a stated finite domain by executing the real code; that part is bounded, not proved.',
-             note='Unclaimed: ENVCHANGE and LOGINACK length clauses, CAPABILITY (outside the generator subset). Server-only packages the library cannot write have no read-back inside the library. Three genuine defects were repaired (EED length field, ERROR state/class bytes, RETURNSTATUS token).',
+             note='Unclaimed: the length clauses of ENVCHANGE, LOGINACK and CAPABILITY. Server-only packages the library cannot write have no read-back inside the library. Three genuine defects were repaired (EED length field, ERROR state/class bytes, RETURNSTATUS token).',
              ref='3 C06'),
  'C07': dict(tech='contract-based deductive verification: interface contract on Package/FieldFmt/FieldData.ReadFrom over a ghost byte stream, VCs from go/ssa, z3/cvc5',
              text='Every parser implementation is proved, for all inputs and loop iterations, to return an error matching ErrNotEnoughBytes whenever the abstract stream ran dry during the call, and to leave the dry flag unchanged on success. Proof level because the claim is a per-function postcondition that the VC generator discharges without bounds.',
